@@ -23,6 +23,12 @@ pub mod constants;
 mod precalculated;
 mod zobrist;
 
+#[cfg(inkayaku_verif)]
+pub mod verif {
+    pub use super::precalculated::magic_verif as magic;
+    pub use super::precalculated::nonmagic_verif as nonmagic;
+}
+
 fn _construct_pgn_regex() -> Regex {
     #[allow(clippy::unwrap_used)]
     Regex::new("^(?:(?:(?P<piece>[BNRQK])?(?P<from_file>[a-h])?(?P<from_rank>[1-8])?(?P<takes>x)?(?P<target>[a-h][1-8])(?:=(?P<promotion>[BNRQ]))?)|(?P<castle>O-O(?P<long_castle>-O)?))(?P<check>[+#])?(?P<annotation>[!?]+)?$").unwrap()
